@@ -9,6 +9,9 @@ impl Property for C03 {
     fn id(&self) -> &'static str {
         "C03"
     }
+    fn hang_is_violation(&self) -> bool {
+        true
+    }
     fn rule(&self) -> String {
         "workspaces (root + 0..3 included files, acyclic, includes resolved via the including file's directory or INCLUDE_DIR): 28 semantic stress patterns (self/mutual references, redefinitions, shadowing), 'semantic soup' programs over a 4-name pool, their typing prefixes / single-token edits / noise, GRAM programs, the seed directory with every file as root, and the 39 vendored LLVM files with their real includes; x diagnostics, and per file document_symbol / folding_range / document_link, inlay_hint for {full, empty at up to 300 offsets, all sub-ranges if <=40 bytes else 32 random}, goto_definition / references / hover / completion(None and '!') at every offset (files <=400 bytes) or every token boundary +-1 plus 64 spread offsets. Oracle: every call returns (catch_unwind, supervisor for aborts, step budgets for parser and include traversal). distinct = digest of workspace; non-trivial = >=1 symbol in the outline or >=1 query answered with content, and not a verbatim corpus/seed workspace".into()
     }
